@@ -4524,8 +4524,10 @@ class ParameterizedMetaclass(type):
         if parameter and not isinstance(value,Parameter):
             if owning_class != mcs:
                 inherited = parameter
-                parameter = copy.copy(parameter)
-                parameter.owner = mcs
+                # A copy with mutable slot values of its own (e.g. the objects
+                # of a Selector), watched by the same class-level watchers
+                parameter = _instantiate_param_obj(inherited, mcs)
+                parameter.watchers = inherited.watchers
                 type.__setattr__(mcs,attribute_name,parameter)
                 for kls in descendents(mcs):
                     kls._param__private.params.clear()
